@@ -212,12 +212,21 @@ def vp_shard(tier):
     trains = [tuple(c) for k in range(0, 4) for c in itertools.combinations(base, k)]
     costs = (0.0, 0.25, 1.0, 4.0, float("inf"))
     D = {}
+    # one tensor object per train, re-used for every pairing (the way a pairwise distance matrix is computed): the function must
+    # leave its arguments alone
+    TT = {a: torch.tensor(a) for a in trains}
+    KEEP = {a: TT[a].clone() for a in trains}
     for c in costs:
         for a in trains:
             for b in trains:
                 tally.add("evaluations")
-                d = inferno.victor_purpura_pair_dist(torch.tensor(a), torch.tensor(b), c)
+                d = inferno.victor_purpura_pair_dist(TT[a], TT[b], c)
                 D[(c, a, b)] = float(d.reshape(-1)[0])
+                for z in (a, b):
+                    if TT[z].shape != KEEP[z].shape or not torch.equal(TT[z], KEEP[z]):
+                        tally.violation("vp:input-mutated", {"t0": a, "t1": b, "cost": "inf" if c == float("inf") else c},
+                                        f"the call changed the caller's spike-time vector {KEEP[z].tolist()} to {TT[z].tolist()}", KEEP[z].tolist(), TT[z].tolist())
+                        TT[z] = KEEP[z].clone()
     # a tensor of costs (including both documented limits 0 and inf) agrees with the scalar calls
     ct = torch.tensor(list(costs))
     for a in trains:
